@@ -54,6 +54,10 @@ def build(fx, variant="plain", extra_defines=(), tag=""):
     cc, flags, flavour = VARIANTS[variant]
     header = "hfsm2/machine.hpp" if flavour == "single" else "hfsm2/machine_dev.hpp"
     inc = os.path.join(REPO, "include") if flavour == "single" else os.path.join(REPO, "development")
+    if variant == "assert" and gen.cfg_of(fx)["manual"]:
+        # RV_<Manual>::loadEnter contains an assertion that does not compile (`planData.empty()`); the assertion build of
+        # manually activated fixtures therefore leaves serialization out
+        fx = dict(fx, config=dict(fx.get("config", {}), features=[f for f in gen.cfg_of(fx)["features"] if f != "SERIALIZATION"]))
     src = gen.cpp_source(fx, header=header, extra_defines=extra_defines)
     h = hashlib.sha256()
     h.update(repo_hash().encode()); h.update(harness_hash().encode()); h.update(src.encode())
